@@ -223,6 +223,36 @@ func sequentialCase(c *vh.Case) {
 				c.Violate("closed-session-bytes-still-count", "op %d: Append evicted %d item(s) although live data was %d <= max %d (closed sessions held %d bytes)", i, evictions-evBefore, before, s.MaxBytes(), closedBytes)
 			}
 			continue
+		case x < 74 && ref[k] != nil && len(ref[k].log)-ref[k].first >= 2:
+			// A replay that is still being consumed while the store changes underneath it
+			// (the iterator is a caller-driven loop): every item it yields must still be the
+			// payload appended at that index -- never a blanked, shifted or foreign one.
+			rs := ref[k]
+			idx := rs.first - 1
+			want := append([][]byte(nil), rs.log[idx+1:]...)
+			ops = append(ops, seqOp{Op: "after+mutate", Sess: sess, Stream: stream, Index: idx})
+			sig.WriteString("I")
+			j := 0
+			for d, e := range s.After(ctx, sess, stream, idx) {
+				if e != nil {
+					c.Violate("after-unexpected-error", "op %d: interleaved After(%v,%d) failed at item %d: %v", i, k, idx, j, e)
+					break
+				}
+				if j < len(want) && string(d) != string(want[j]) {
+					c.Violate("replay-corrupted-by-concurrent-eviction", "op %d: After(%v,%d) item %d is %q, appended payload was %q (store mutated between yields)", i, k, idx, j, trunc([][]byte{d}), trunc([][]byte{want[j]}))
+					break
+				}
+				if j == 0 {
+					// force evictions while the replay is in progress
+					s.SetMaxBytes(1)
+					s.SetMaxBytes(limit)
+				}
+				j++
+			}
+			if j < len(want) && !c.Violated() {
+				c.Violate("partial-replay", "op %d: interleaved After(%v,%d) yielded %d of %d items", i, k, idx, j, len(want))
+			}
+			c.Count("interleaved_replays", 1)
 		case x < 80:
 			// After on a random index, possibly on an unknown stream
 			idx := r.Range(-1, 6)
